@@ -93,7 +93,20 @@ func encTopo(t *topology.FunctionTopology) string {
 func encSig(s *detection.Signature) string {
 	return strings.Join([]string{hx(s.ID), hx(s.Name), hx(s.Severity), hx(s.TopologyHash), hx(s.FuzzyHash),
 		ratStr(s.EntropyScore), ratStr(s.EntropyTolerance), fmt.Sprint(s.NodeCount), fmt.Sprint(s.LoopDepth),
-		hxList(s.IdentifyingFeatures.RequiredCalls), hxList(s.IdentifyingFeatures.StringPatterns)}, ";")
+		hxList(s.IdentifyingFeatures.RequiredCalls), hxList(s.IdentifyingFeatures.StringPatterns),
+		hx(sigExtra(s)), hxList(s.Metadata.References)}, ";")
+}
+
+// sigExtra renders the fields that no lookup reads, so that "identical content" is checkable.
+func sigExtra(s *detection.Signature) string {
+	cf := "nil"
+	if s.IdentifyingFeatures.ControlFlow != nil {
+		cf = b01(s.IdentifyingFeatures.ControlFlow.HasInfiniteLoop) + b01(s.IdentifyingFeatures.ControlFlow.HasReconnectLogic)
+	}
+	if s.Description == "" && s.Category == "" && len(s.IdentifyingFeatures.OptionalCalls) == 0 && cf == "nil" && s.Metadata.Author == "" && s.Metadata.Created == "" {
+		return ""
+	}
+	return fmt.Sprintf("%q|%q|%q|%s|%q|%q", s.Description, s.Category, s.IdentifyingFeatures.OptionalCalls, cf, s.Metadata.Author, s.Metadata.Created)
 }
 
 func encSigs(l []detection.Signature) string {
@@ -252,3 +265,7 @@ func genSig(r *Rng, t *topology.FunctionTopology, id string) detection.Signature
 	s.ID = id
 	return s
 }
+
+type topologyT = topology.FunctionTopology
+
+func topologySim(a, b *topologyT) float64 { return topology.TopologySimilarity(a, b) }
